@@ -219,4 +219,24 @@ Section Proofs.
     - now rewrite V.
     - now rewrite upgrade_sets_version.
   Qed.
+
+  (* the complete function: identity on a current-format document of ANY sector *)
+  Variable sector_all : value L.
+  Variable complete : doc L -> bool.
+  Variable add_defaults : doc L -> doc L.
+  Hypothesis add_defaults_complete : forall d, complete d = true -> add_defaults d = d.
+
+  Lemma convert_full_fixpoint_lemma : forall d,
+    has_key L "sector" d = true -> complete d = true -> vge (format_version d) current = true ->
+    convert_format_full L version vge current format_version upgrade sector_all add_defaults d = d.
+  Proof.
+    intros d Hs Hc Hv. unfold convert_format_full, add_sector. rewrite Hs, (add_defaults_complete d Hc).
+    now apply convert_fixpoint_lemma.
+  Qed.
+
+  Lemma add_sector_keeps_value_lemma : forall d k v, In (k, v) d -> In (k, v) (add_sector L sector_all d).
+  Proof. intros d k v H. unfold add_sector. destruct (has_key L "sector" d); auto. apply in_or_app. now left. Qed.
+
+  Lemma add_sector_only_when_missing_lemma : forall d, has_key L "sector" d = true -> add_sector L sector_all d = d.
+  Proof. intros d H. unfold add_sector. now rewrite H. Qed.
 End Proofs.
